@@ -7,6 +7,7 @@ import numpy as np
 from vlib import repo
 from vlib.meshmodel import Model, Box, ONE, S
 
+MAX_LEVEL = 30     # bisection depth per axis in generated histories (element sizes down to 2^-30 of a root)
 CURVES = ['UnitSquare', 'PiSquare', 'LShape', 'Circle', 'UnitInterval']
 _curve_cache = {}
 
@@ -180,6 +181,8 @@ def apply_op(live, op, cap=400):
         if kind in ('t', 'x'):
             ax = 0 if kind == 't' else 1
             e = select(live, op[1])
+            if e.levels[ax] >= MAX_LEVEL:
+                return {'op': op, 'mode': 'skipped'}      # beyond this the midpoints are no longer representable
             if ax == 1 and live.min_hx and (e.space_interval[1] - e.space_interval[0]) / 2 < live.min_hx:
                 return {'op': op, 'mode': 'skipped'}
             key = live.skey(e).key
@@ -189,6 +192,8 @@ def apply_op(live, op, cap=400):
             mesh.refine_axis(e, ax)
         elif kind == 'tx':
             e = select(live, op[1])
+            if max(e.levels) >= MAX_LEVEL:
+                return {'op': op, 'mode': 'skipped'}
             if live.min_hx and (e.space_interval[1] - e.space_interval[0]) / 2 < live.min_hx:
                 return {'op': op, 'mode': 'skipped'}
             key = live.skey(e).key
